@@ -42,7 +42,14 @@ fn cut(
     }
     ranges.sort_unstable();
     let mut ri = 0;
+    let up = "../".repeat(name.matches('/').count());
     while i < n {
+        if lines[i].1 == SNIP_MARK && !(ri < ranges.len() && ranges[ri].0 == i) {
+            // an occurrence of the shared snippet: its lines live in SNIP_FILE
+            out.push(format!(".include \"{up}{SNIP_FILE}\""));
+            i += 1;
+            continue;
+        }
         if ri < ranges.len() && ranges[ri].0 == i {
             let (a, b) = ranges[ri];
             ri += 1;
@@ -64,13 +71,77 @@ fn cut(
     files.push((name.to_string(), out.join("\n") + "\n"));
 }
 
+const SNIP_MARK: &str = "\u{1}snippet";
+pub const SNIP_FILE: &str = "snip.s";
+
+/// Label-free snippets that are legal to paste any number of times (some of them draw diagnostics).
+const SNIPPETS: [&str; 5] = [
+    "    nop\n",
+    "    # shared comment\n    addi t6, zero, 5\n    add zero, t6, t6\n",
+    "    li t5, 77\n",
+    "    addi t6, t6, 1\n    nop\n",
+    "    add t0, t1\n",
+];
+
+/// Insert 2-3 copies of one snippet between instruction lines of `text`; returns the new text,
+/// the snippet and the (first line, length) of each copy in the new text.
+pub fn add_shared_snippet(text: &str, rng: &mut Rng) -> Option<(String, String, Vec<(usize, usize)>)> {
+    let snippet = SNIPPETS[rng.below(SNIPPETS.len())];
+    let ls: Vec<&str> = text.lines().collect();
+    let is_ins = |l: &str| l.starts_with("    ") && !l.trim_start().starts_with('.') && !l.trim_start().starts_with('#');
+    let slots: Vec<usize> = (1..ls.len()).filter(|&i| is_ins(ls[i]) && is_ins(ls[i - 1])).collect();
+    if slots.len() < 3 {
+        return None;
+    }
+    let mut at: Vec<usize> = (0..2 + rng.below(2)).map(|_| slots[rng.below(slots.len())]).collect();
+    at.sort_unstable();
+    at.dedup();
+    let sn: Vec<&str> = snippet.lines().collect();
+    let mut out: Vec<&str> = Vec::new();
+    let mut occ = Vec::new();
+    for (i, l) in ls.iter().enumerate() {
+        if at.contains(&i) {
+            occ.push((out.len(), sn.len()));
+            out.extend(sn.iter());
+        }
+        out.push(l);
+    }
+    Some((out.join("\n") + "\n", snippet.to_string(), occ))
+}
+
 pub fn make_tree(text: &str, rng: &mut Rng, depth: usize) -> Tree {
-    let lines: Vec<(usize, String)> = text.lines().map(str::to_string).enumerate().collect();
-    let mut files = Vec::new();
+    make_tree_with(text, rng, depth, None)
+}
+
+/// `shared`: the snippet text and its occurrences (first line, length) in `text`; every occurrence
+/// becomes an `.include` of the one file SNIP_FILE.
+pub fn make_tree_with(text: &str, rng: &mut Rng, depth: usize, shared: Option<(&str, &[(usize, usize)])>) -> Tree {
+    let mut lines: Vec<(usize, String)> = Vec::new();
     let mut origin = BTreeMap::new();
+    let occ: &[(usize, usize)] = shared.map(|s| s.1).unwrap_or(&[]);
+    let mut skip = 0;
+    for (i, l) in text.lines().enumerate() {
+        if let Some((_, len)) = occ.iter().find(|(a, _)| *a == i) {
+            lines.push((i, SNIP_MARK.to_string()));
+            skip = *len;
+        }
+        if skip > 0 {
+            let first = occ.iter().filter(|(a, _)| *a <= i).map(|(a, _)| *a).max().unwrap_or(i);
+            origin.insert(i, (SNIP_FILE.to_string(), i - first));
+            skip -= 1;
+            continue;
+        }
+        lines.push((i, l.to_string()));
+    }
+    let n_lines = text.lines().count();
+    let mut files = Vec::new();
     let mut counter = 0;
     cut(FILE, &lines, depth, rng, &mut files, &mut origin, &mut counter);
     files.reverse(); // base first
+    if let Some((sn, _)) = shared {
+        files.push((SNIP_FILE.to_string(), sn.to_string()));
+    }
+    let lines: Vec<()> = vec![(); n_lines];
     let origin: Vec<(String, usize)> = (0..lines.len()).map(|i| origin.get(&i).cloned().unwrap_or((String::from("?"), 0))).collect();
     Tree { files, origin }
 }
@@ -120,12 +191,27 @@ pub fn run(ctx: &Ctx) -> i32 {
                 text = ls.join("\n") + "\n";
             }
             let depth = 1 + rng.below(3);
-            let tree = make_tree(&text, &mut rng, depth);
+            let shared = if rng.chance(0.4) { add_shared_snippet(&text, &mut rng) } else { None };
+            let tree = match &shared {
+                Some((t, sn, occ)) => {
+                    text = t.clone();
+                    acc.count("trees_with_a_file_included_several_times", 1);
+                    make_tree_with(&text, &mut rng, depth, Some((sn, occ)))
+                }
+                None => make_tree(&text, &mut rng, depth),
+            };
             acc.evaluations += 1;
             let replay = json!({"files": tree.files});
             // ---------- (equivalence)
             let pasted = guarded(|| rva::analyze_with(MemReader::single(FILE, &text), FILE));
-            let split = guarded(|| rva::analyze_with(MemReader::new(&tree.files), FILE));
+            // a file that is included several times must be delivered again: like the CLI's reader
+            // (fresh id per delivery) or like an editor's (one id per file)
+            let policy = if shared.is_none() { Reread::Refuse } else if rng.chance(0.5) { Reread::AllowFreshId } else { Reread::AllowSameId };
+            let split = guarded(|| {
+                let mut rd = MemReader::new(&tree.files);
+                rd.reread = policy;
+                rva::analyze_with(rd, FILE)
+            });
             let (Ok(pa), Ok(sp)) = (pasted, split) else {
                 acc.count("analysis_panicked", 1);
                 continue;
@@ -175,6 +261,27 @@ pub fn run(ctx: &Ctx) -> i32 {
                         acc.violation("C15|selection|cli|malformed".to_string(), "compact output cannot be parsed".to_string(), replay.clone());
                         continue;
                     };
+                    if all_files {
+                        let mut kc: BTreeMap<(String, String, usize, usize, usize), usize> = BTreeMap::new();
+                        for d in &list {
+                            let f = d.file.strip_prefix(&dir).map(|s| s.trim_start_matches('/').to_string()).unwrap_or_else(|| d.file.clone());
+                            *kc.entry((d.title.clone(), f, d.line, d.c0, d.c1)).or_insert(0) += 1;
+                        }
+                        let mut kl: BTreeMap<(String, String, usize, usize, usize), usize> = BTreeMap::new();
+                        for ((_, f, l, c0, c1, title), n) in &kp {
+                            *kl.entry((title.clone(), f.clone(), *l, *c0, *c1)).or_insert(0) += n;
+                        }
+                        if kc != kl {
+                            let d = kl.iter().find(|(k, n)| kc.get(*k) != Some(*n)).map(|(k, _)| format!("{k:?} only in the pasted file")).or_else(|| kc.iter().find(|(k, n)| kl.get(*k) != Some(*n)).map(|(k, _)| format!("{k:?} only from the files on disk"))).unwrap_or_default();
+                            acc.violation(
+                                format!("C15|equiv|disk|{}", if kc.values().sum::<usize>() != kl.values().sum::<usize>() { "count" } else { "location" }),
+                                format!("`rva lint --all-files` on the tree on disk ({} files) differs from the pasted file: {d}", tree.files.len()),
+                                replay.clone(),
+                            );
+                        } else {
+                            acc.count("disk_trees_equivalent", 1);
+                        }
+                    }
                     let shown_base = list.iter().filter(|d| d.file.strip_prefix(&dir).map(|s| s.trim_start_matches('/')) == Some(FILE)).count();
                     let shown_other = list.len() - shown_base;
                     let ok = if all_files {
@@ -194,8 +301,9 @@ pub fn run(ctx: &Ctx) -> i32 {
                 }
             }
             // ---------- (faults) in memory
-            if tree.files.len() > 1 {
-                let victim = tree.files[1 + rng.below(tree.files.len() - 1)].0.clone();
+            let victims: Vec<&String> = tree.files.iter().skip(1).map(|f| &f.0).filter(|n| *n != SNIP_FILE).collect();
+            if !victims.is_empty() {
+                let victim = victims[rng.below(victims.len())].clone();
                 // the directive that includes the victim
                 let mut dir_site: Option<(String, usize)> = None;
                 for (n, t) in &tree.files {
